@@ -25,6 +25,7 @@ type scripted struct {
 	tsn0     uint32
 	il       bool // interleaving negotiated
 	ourIL    bool
+	noIFwd   bool // ourIL: advertise I-DATA without I-FORWARD-TSN (allowed: the latter is only needed with PR-SCTP)
 	ourZC    bool
 	arwnd    uint32
 	seenEv   int
@@ -57,7 +58,10 @@ func newScripted(m *Sim, cfg epCfg, ourIL, ourZC bool) *scripted {
 func (p *scripted) initParams() [][]byte {
 	ext := []byte{130, 192}
 	if p.ourIL {
-		ext = append(ext, 64, 194)
+		ext = append(ext, 64)
+		if !p.noIFwd {
+			ext = append(ext, 194)
+		}
 	}
 	ps := [][]byte{wTLVBytes(0x8008, ext, false)}
 	if p.ourZC {
